@@ -59,6 +59,7 @@ class ErrDomain:
         self.kinds = kinds              # callee -> failure kind (OS + internal summaries)
         self.report = report            # callable(kind, node, text)
         self.rets = []                  # (ReturnStmt, state)
+        self.exits = []                 # (call to a noreturn function, state)
         self.sites = []                 # call nodes of must-check callees
         self.params = {p["name"] for p in prog.params(f)}
         rt = qtype(f).split("(")[0].strip()
@@ -125,6 +126,11 @@ class ErrDomain:
 
     def _call_kind(self, e):
         e = strip(e, casts=True)
+        if e.get("kind") == "ConditionalOperator":
+            a, b = self._call_kind(kids(e)[1]), self._call_kind(kids(e)[2])
+            if a and b and a[1] == b[1]:
+                return a[0] + "|" + b[0], a[1], a[2]
+            return None
         if e.get("kind") == "CallExpr":
             cn = callee_name(e)
             if cn in self.kinds:
@@ -136,6 +142,8 @@ class ErrDomain:
         init = kids(vd)
         if init:
             s = self.eval(init[-1], s, consumer="init")
+            if s is None:
+                return None
             ck = self._call_kind(init[-1])
             if ck:
                 s["v:" + vd["id"]] = U(ck[1], ck[0], ck[2])
@@ -148,10 +156,15 @@ class ErrDomain:
     def eval_cond(self, e, s):
         return self.eval(e, s, consumer="cond")
 
+    def eval_ret(self, e, s):
+        return self.eval(e, s, consumer="return")
+
+    noreturn = frozenset(["exit", "_exit", "abort", "_Exit"])
+
     def eval(self, e, s, consumer=None):
         """walk an expression: flag reads of unchecked results, track assignments"""
         e0 = strip(e)
-        if e0 is None:
+        if e0 is None or s is None:
             return s
         k = e0.get("kind")
         ks = kids(e0)
@@ -202,6 +215,9 @@ class ErrDomain:
             ck = self._call_kind(e0)
             for a in call_args(e0):
                 s = self.eval(a, s, consumer="arg")
+            if s is not None and callee_name(e0) in self.noreturn:
+                self.exits.append((e0, dict(s)))
+                return None
             if ck:
                 self.sites.append(ck[2])
                 if consumer is None:
@@ -232,6 +248,8 @@ class ErrDomain:
             return self.eval(ks[0], s, consumer="rw")
         for c in ks:
             s = self.eval(c, s, consumer=consumer if k in ("ImplicitCastExpr", "ParenExpr", "CStyleCastExpr") else "operand")
+            if s is None:
+                return None
         return s
 
     # ---- checks ---------------------------------------------------------------------
@@ -261,6 +279,8 @@ class ErrDomain:
         return False
 
     def assume(self, e, truth, s):
+        if s is None:
+            return None
         a, op, b = self._atom_parts(e)
         cands = [(a, b, False)] + ([(b, a, True)] if b is not None else [])
         for x, other, swapped in cands:
@@ -387,9 +407,11 @@ def internal_summaries(prog):
     return out
 
 
-def analyse_function(prog, fname, kinds, report):
+def analyse_function(prog, fname, kinds, report, noreturn=()):
     f = prog.fn(fname)
     dom = ErrDomain(prog, fname, f, kinds, report)
+    if noreturn:
+        dom.noreturn = frozenset(dom.noreturn | set(noreturn))
     fl = Flow(dom)
     end = fl.function(prog, f, {})
     if end is not None:
